@@ -172,7 +172,7 @@ def corr_planar(c, tier, rng, methods=METHODS):
         if not (k < 1e9):
             c.count("planar:skipped-float-absorption (1 + w.û rounds to 0; C11 known finding)")
             continue
-        tol = dict(rtol=max(1e-8, 1e-14 * k), atol=1e-10)
+        tol = dict(rtol=max(1e-8, 1e-13 * k), atol=1e-10)  # k = conditioning of the divisions; the dot products w.x+b add their own cancellation
         kind = "tanh" if slope is None else "lrelu"
         c.count(f"planar:direct:{kind}:dim{n}")
         if k >= 1e5:
@@ -203,7 +203,7 @@ def corr_planar(c, tier, rng, methods=METHODS):
         if not (k < 1e9):
             c.count("planar:skipped-float-absorption (1 + w.û rounds to 0; C11 known finding)")
             continue
-        tol = dict(rtol=max(1e-8, 1e-14 * k), atol=1e-10)
+        tol = dict(rtol=max(1e-8, 1e-13 * k), atol=1e-10)  # k = conditioning of the divisions; the dot products w.x+b add their own cancellation
         # the split itself
         lines.append(f"planar get {n} {fs2b(params)}")
         wants.append([float(v) for v in np.asarray(up.weight)] + [float(v) for v in np.asarray(up._act_scale)] + [float(up.bias)])
@@ -235,7 +235,7 @@ def corr_planar(c, tier, rng, methods=METHODS):
             if not (k < 1e9) or not any(v != 0.0 for v in params[:n]):
                 c.count("planar:skipped-float-absorption (1 + w.û rounds to 0; C11 known finding)")
                 continue
-            tol = dict(rtol=max(1e-8, 1e-14 * k), atol=1e-10)
+            tol = dict(rtol=max(1e-8, 1e-13 * k), atol=1e-10)  # k = conditioning of the divisions; the dot products w.x+b add their own cancellation
             c.count(f"planar:conditional:{kind}:dim{n}")
             for x, tag in _planar_inputs(rng, params[:n], params[-1], n)[1:]:
                 c.count("planar:input:" + tag)
